@@ -38,8 +38,10 @@ pub enum DOp {
     /// run a complete priority-first traversal from the node and keep nothing
     PfsTraverse(u8),
     /// every lookup query (is_connected, find_outbound, find_inbound, degrees)
-    /// between every pair of nodes, sources ascending (false) or descending
-    /// (true), targets likewise; keeps nothing
+    /// between every pair of nodes, then every search (all kinds, to every
+    /// target whether reachable or not, cycle searches, orderings) from every
+    /// node; sources ascending (false) or descending (true), targets likewise;
+    /// keeps nothing
     Lookups(bool),
 }
 
@@ -60,7 +62,7 @@ impl DOp {
             DOp::Drop(i) => format!("drop(h.remove({}))", i),
             DOp::DropContainerElsewhere => "drop the container on another thread".into(),
             DOp::Compare(u, v) => format!("let _ = n{} < n{}, max(n{}, n{}) ...", u, v, u, v),
-            DOp::Lookups(desc) => format!("for every pair (u, v){}: u.is_connected(&v); u.find_outbound(&v); u.find_inbound(&v); u.degree()", if *desc { " in descending order" } else { "" }),
+            DOp::Lookups(desc) => format!("for every pair (u, v){}: u.is_connected(&v); u.find_outbound(&v); u.find_inbound(&v); u.degree(); then every search kind u -> v (search, search_path), cycle searches and orderings from every u, results dropped", if *desc { " in descending order" } else { "" }),
             DOp::PfsTraverse(u) => format!("n{}.pfs().for_each(..).search()", u),
         }
     }
@@ -391,6 +393,29 @@ impl<F: Fl> DWorld<F> {
                         drop(F::find_in(&a, v as K));
                     }
                     let _ = (F::deg_out(&a), F::is_orphan(&a));
+                }
+                // ... and every kind of search from every node to every target
+                // (found or not), cycle searches and orderings; all results are dropped at once
+                for &u in &order {
+                    let a = self.node(u);
+                    for transpose in if F::DIRECTED { vec![false, true] } else { vec![false] } {
+                        for kind in [Kind::Bfs, Kind::Dfs, Kind::PfsMin, Kind::PfsMax] {
+                            for &t in &order {
+                                if t != u {
+                                    for res in [ResK::Path, ResK::Search] {
+                                        let cfg = Cfg { kind, transpose, target: Some(t as K), meth: Meth::None, res, alt: false };
+                                        drop(F::search(&a, &cfg, &mut |_| true));
+                                    }
+                                }
+                            }
+                            let cfg = Cfg { kind, transpose, target: None, meth: Meth::None, res: ResK::Cycle, alt: false };
+                            drop(F::search(&a, &cfg, &mut |_| true));
+                        }
+                        for kind in [Kind::Pre, Kind::Post] {
+                            let cfg = Cfg { kind, transpose, target: None, meth: Meth::None, res: ResK::Nodes, alt: false };
+                            drop(F::search(&a, &cfg, &mut |_| true));
+                        }
+                    }
                 }
                 self.model.queried = true;
             }
